@@ -350,8 +350,8 @@ Definition init_update (c : cfg) s hp g kvs :=
   let '(s', r) := init_update_seq c s hp g kvs in
   match r with
   | Ok _ => K s'
-  | Raise e => if c SInitUpdate then R s e      (* FIXED (proposed): every entry validated first, all-or-nothing *)
-               else R s' e                      (* CURRENT: the entries before the rejected one stay stored *)
+  | Raise e => if c SInitUpdate then R s e      (* FIXED (4f0fb1e): every entry validated first, all-or-nothing *)
+               else R s' e                      (* BEFORE: the entries before the rejected one stay stored *)
   end.
 (* MutableMapping.popitem: the first key *)
 Definition init_popitem s g := match inits s g with [] => R s KeyError | (k, _) :: _ => init_delitem s g k end.
@@ -835,7 +835,7 @@ Definition current_cfg : cfg := fun s =>
   | SNodeOutputsDup => true     (* /repo dff454e *)
   | SNodeOutputsOwned => false  (* open: known finding node-output-owned *)
   | SGraphNew => true           (* /repo 680d931 *)
-  | SInitUpdate => false        (* open: known finding init-update-partial (C06) *)
+  | SInitUpdate => true         (* /repo 4f0fb1e *)
   end.
 
 (* the code as it was before any repair (pinned commit of the design phase): every defect present *)
